@@ -909,10 +909,15 @@ def _liveness(plan, ctx):
             ctx.fired('fault-' + k)
         r_fault = sp.residual(x, eps)
         target = max(1e-3 * max(r_start, r_fault), 1e-6)
+        x_fault = x.copy()
+        state_fault = None if state is None else \
+            {k_: v_.copy() for k_, v_ in state.items()}
         if plan['ops']:
             # the easy-instance filter must also hold from where the faults
             # left the iterate (a restart far away can be legitimately slow)
-            ok2, _ = _easy_filter(sp, eps, max(r_start, r_fault), x)
+            ok2, xe2 = _easy_filter(sp, eps, max(r_start, r_fault), x)
+            if ok2:
+                xe = xe2
             if not ok2:
                 ctx.probe('liveness-post-fault-state-filtered')
                 raise Reject('not easy from the post-fault state')
@@ -941,6 +946,35 @@ def _liveness(plan, ctx):
         r = box['r']
         ctx.step(done)
     _count(ctx, fired)
+    if not r <= target:
+        # At a kink the sub-gradient residual stays O(1) until the iterate
+        # hits the kink exactly, and Douglas-Rachford-type methods can sit
+        # next to it for ~1/distance iterations while the dual variable
+        # drifts to the boundary of its set (active-set identification; seen
+        # with 7055 iterations at distance 7e-5).  An iterate that is within
+        # 1e-3 of a point whose sub-gradient inclusion has been verified (the
+        # reference solve) therefore gets ten times the budget, in one
+        # uninterrupted run from the same post-fault state.
+        d_0 = float(np.linalg.norm(elem_flat(x_fault) - elem_flat(xe)))
+        d_end = float(np.linalg.norm(elem_flat(x) - elem_flat(xe)))
+        if np.isfinite(d_end) and d_end <= 1e-3 * d_0:
+            ctx.probe('liveness-escalated-near-verified-kkt-point')
+            x = x_fault.copy()
+            box = {'k': 0, 'r': r_fault, 'x': None}
+            checkpoints = set(range(1000, 10 * N_BOUND + 1, 1000))
+            with seams.allocator(plan['garbage'], salt=6):
+                try:
+                    _call(s, 'run', lambda: sp.run(
+                        x, 10 * N_BOUND, cb, state=state_fault,
+                        default_steps=default_steps))
+                except SimCrash:
+                    pass
+            done, r = box['k'], box['r']
+            ctx.step(done)
+            d_end = float(np.linalg.norm(elem_flat(x) - elem_flat(xe)))
+            if not r <= target and d_end <= 1e-5 * d_0:
+                ctx.probe('liveness-accepted-at-1e-5-of-verified-kkt-point')
+                r = target
     if not r <= target:
         site = s
         if s == 'forward_backward':
